@@ -244,7 +244,7 @@ class Logix( Message_Router ):
             off=off, siz=siz, beg=beg, end=end, endadv=endadv, endmax=endmax, offremains=offremains ))
         assert 0 <= beg < cnt, \
             "Attribute %r initial element invalid: %r" % ( attribute, (beg, end) )
-        assert elm <= cnt, \
+        assert elm <= cnt and endactual <= cnt, \
             "Attribute %r elements requested invalid: %r" % ( attribute, elm )
         assert beg < end, \
             "Attribute %r ending element before beginning: %r" % ( attribute, (beg, end) )
